@@ -256,9 +256,18 @@ def run(ck: core.Check):
                     stats["value_checks"] += 1
                 if req["drop"] and len(exp[1]) < len(req["inputs"]):
                     stats["dropped_some"] += 1
-                for a, dep in lf.nesting_of_use(prog, [i for _, i in req["outputs"]]).items():
+                nest = lf.nesting_of_use(prog, [i for _, i in req["outputs"]])
+                for a, dep in nest.items():
                     if dep > 0:
                         stats["nested_only_depth"][dep] = stats["nested_only_depth"].get(dep, 0) + 1
+                        if req["drop"] and dep >= 2:
+                            stats["drop_with_input_read_only_at_depth_ge_2"] = stats.get("drop_with_input_read_only_at_depth_ge_2", 0) + 1
+                # how the surviving inputs are read: only as a control-flow operand (If condition, Loop trip
+                # count / condition / state, Scan input), only as a body result, ...
+                for a, ks in lf.use_kinds(prog, [i for _, i in req["outputs"]]).items():
+                    if "operand" not in ks and "output" not in ks:
+                        tag = "+".join(sorted(ks)) + (":drop" if req["drop"] else "") + (":nested" if nest.get(a, 0) > 0 else "")
+                        stats.setdefault("read_only_as", {})[tag] = stats.setdefault("read_only_as", {}).get(tag, 0) + 1
             nontrivial = len(req["inputs"]) >= 2 or req["kind"] != "plain"
             ck.count(("req", json.dumps([lf.to_objs(prog), req["inputs"], req["outputs"], req["drop"]])) if nontrivial else None)
             ck.sample({"request": req, "outcome": oc, "expected": exp if exp is None else exp[0]}, 4)
@@ -324,7 +333,9 @@ def run(ck: core.Check):
     ck.exhaustive = False
     ck.rule = (
         "seeded-random abstract programs (1-6 arguments of random element type/rank/constant, symbolic and unknown "
-        "dims; up to 8 top-level values; If/Loop bodies nested to depth 3 using outer values and arguments directly) "
+        "dims; up to 8 top-level values; If/Loop/Scan bodies nested to depth 3 using outer values and arguments directly; "
+        "arguments read only as control-flow operands - If condition, Loop trip count / condition / state, Scan input - "
+        "or only as body results, at every depth) "
         "x 3 requests each (random dictionary orders and names, unused / dropped / missing arguments, non-argument "
         "inputs, non-Var inputs and outputs, pass-through outputs, one Var under two keys, both flag values); "
         "non-trivial = at least 2 inputs or an irregular request; distinct by (program, request)"
